@@ -38,6 +38,8 @@ type Exec struct {
 	calls    map[string]int // ordinal of calls by callee name (for call#k naming)
 	witnesses []witness
 	curTrail  []string
+	callSeen  map[string]bool
+	curTag    string
 	loopEff   map[string]*loopEffects
 	topTargetsDone  bool
 	topTargetsCache []modTarget
@@ -397,8 +399,16 @@ func (x *Exec) loopHead(fr *Frame, li *loopInfo, pre *State) (*State, error) {
 	// havoc
 	eff := x.effectsOfBlocks(fr, li.body)
 	h := pre.Clone()
+	var h2 *State
 	if eff.all {
-		h.Heap = map[string]Term{}
+		keep := map[string]Term{}
+		for k, v := range h.Heap {
+			if strings.HasPrefix(k, "GF$") {
+				// ghost fields: havocked too (a contract in the loop may update them), but by name
+				keep[k] = x.u.Fresh(k+".havoc", v.So)
+			}
+		}
+		h.Heap = keep
 		h.Epoch = x.nextEpoch()
 		h.Ghost = map[string]Term{}
 		// the allocation counter only grows
@@ -442,6 +452,19 @@ func (x *Exec) loopHead(fr *Frame, li *loopInfo, pre *State) (*State, error) {
 			h.Vars[k] = x.u.FreshVal(k+".havoc", v.T)
 		}
 	}
+	// implicit invariant of compiler-generated range-over-slice loops: -1 <= rangeindex < len
+	rangeInv := func(s *State) (Term, bool) { return x.rangeIndexInv(fr, li, s) }
+	if g, ok := rangeInv(pre); ok {
+		o := x.u.AddObligation(x.topName, fmt.Sprintf("inv-entry.%sL%d.range", x.inlineTag(fr), li.ordinal), li.head.Instrs[0].Pos(), x.labels, "-1 <= rangeindex < len (implicit)", pre.PC, g)
+		o.Func = fname
+	}
+	defer func() {
+		if h2 != nil {
+			if g, ok := rangeInv(h2); ok {
+				x.u.Assume(Implies(h2.PC, g))
+			}
+		}
+	}()
 	// implicit invariant: the heap differs from the entry heap only where the modifies clause allows
 	if !eff.all {
 		if err := x.frameInvariant(fr, li, pre, h, eff, true); err != nil {
@@ -461,6 +484,10 @@ func (x *Exec) loopHead(fr *Frame, li *loopInfo, pre *State) (*State, error) {
 	if len(invs) == 0 {
 		x.u.Trust(fmt.Sprintf("loop %d of %s has no invariant: only facts about state the loop does not modify survive it", li.ordinal, fname))
 	}
+	h2 = h
+	h.Snap["iter"] = nil
+	delete(h.Snap, "iter")
+	h.Snap["iter"] = h.Clone() // at(iter, e): e at the start of the current iteration of the innermost loop
 	if eff.acquires {
 		// the loop only waits on the monitor: "the state when the lock was last acquired" is the head state
 		h.Snap["lock"] = h.Clone()
@@ -480,8 +507,56 @@ func (x *Exec) loopHead(fr *Frame, li *loopInfo, pre *State) (*State, error) {
 	return h, nil
 }
 
+// rangeIndexInv recognises the loop head go/ssa generates for "for i, v := range slice" in naive form
+// (t = *rangeindex; t' = t + 1; *rangeindex = t'; if t' < len ...) and returns -1 <= rangeindex < max(len,0)-ish.
+func (x *Exec) rangeIndexInv(fr *Frame, li *loopInfo, s *State) (Term, bool) {
+	if li.head.Comment != "rangeindex.loop" {
+		return Term{}, false
+	}
+	var idxAlloc *ssa.Alloc
+	var lenVal ssa.Value
+	for _, ins := range li.head.Instrs {
+		switch t := ins.(type) {
+		case *ssa.UnOp:
+			if a, ok := t.X.(*ssa.Alloc); ok && a.Comment == "rangeindex" {
+				idxAlloc = a
+			}
+		case *ssa.BinOp:
+			if t.Op == token.LSS {
+				lenVal = t.Y
+			}
+		}
+	}
+	if idxAlloc == nil || lenVal == nil {
+		return Term{}, false
+	}
+	pv, ok := fr.regs[idxAlloc]
+	if !ok || pv.P == nil {
+		return Term{}, false
+	}
+	lv, ok := fr.regs[lenVal]
+	if !ok {
+		if c, isC := lenVal.(*ssa.Const); isC {
+			cv, err := x.constVal(c)
+			if err != nil {
+				return Term{}, false
+			}
+			lv = cv
+		} else {
+			return Term{}, false
+		}
+	}
+	ri := x.u.LoadPtr(s, pv.P, types.Typ[types.Int]).One()
+	u := x.u
+	return And(u.ILe(u.IntC(-1), ri), Or(u.ILt(ri, lv.One()), Eq(ri, u.IntC(-1)))), true
+}
+
 func (x *Exec) loopBack(fr *Frame, li *loopInfo, st *State) error {
 	fname := x.fnShort(fr.fn)
+	if g, ok := x.rangeIndexInv(fr, li, st); ok {
+		o := x.u.AddObligation(x.topName, fmt.Sprintf("inv-preserved.%sL%d.range", x.inlineTag(fr), li.ordinal), li.head.Instrs[0].Pos(), x.labels, "-1 <= rangeindex < len (implicit)", st.PC, g)
+		o.Func = fname
+	}
 	if eff := x.loopEff[fmt.Sprintf("f%d.L%d", fr.id, li.ordinal)]; eff != nil && !eff.all {
 		if err := x.frameInvariant(fr, li, st, nil, eff, false); err != nil {
 			return err
